@@ -55,6 +55,16 @@ def lruRun (cap nkeys : Nat) (ops : List (Op Nat Nat)) : Sexp :=
   | none => .list [.atom "crash", abs]
   | some (c, outs) => .list [.list [.list (outs.map outS), dumpS c nkeys], abs]
 
+/-- `C15 lrutrace`: output and complete structure after *every* step -/
+def lruTrace (nkeys : Nat) : CLru Nat Nat → ALru Nat Nat → List (Op Nat Nat) → List Sexp
+  | _, _, [] => []
+  | c, a, op :: ops =>
+    let (a', ao) := astep a op
+    match cstep c op with
+    | none => [.atom "crash"]
+    | some (c', o) =>
+      .list [outS o, dumpS c' nkeys, outS ao, adumpS a'] :: lruTrace nkeys c' a' ops
+
 /-! ### loader histories: `C15 hist <cap> <autoReload> <hasCallback> ( path… ) ( ops… )` -/
 section
 open Genshi.Loader
@@ -132,6 +142,10 @@ def handle : List Sexp → Option Sexp
       let path ← path.mapM entry?
       let ops ← ops.mapM hop?
       pure (.list (histRun ⟨path, ar, cap, cb⟩ (Genshi.Loader.World.init cap) ops))
+  | [.atom "lrutrace", cap, nkeys, .list ops] => do
+      let cap ← cap.toNat?; let nkeys ← nkeys.toNat?
+      let ops ← ops.mapM op?
+      pure (.list (lruTrace nkeys (empty cap ⟨none, none, 0, 0⟩) (aempty cap) ops))
   | [.atom "lru", cap, nkeys, .list ops] => do
       let cap ← cap.toNat?; let nkeys ← nkeys.toNat?
       let ops ← ops.mapM op?
